@@ -211,7 +211,7 @@ def main_all(mx):
     random.Random(0).shuffle(ms)
     ms = ms[:mx]
     print("functions", len(funcs), "mutants", len(ms), flush=True)
-    with Pool(12) as pool:
+    with Pool(int(os.environ.get("MUTSCORE_JOBS", "12"))) as pool:
         res = pool.map(run_all_props, ms, chunksize=4)
     res = [r for r in res if r["status"] != "syntax"]
     cnt = {}
